@@ -1,6 +1,8 @@
 import Ucfg.Lemmas.Dict
 import Ucfg.Model.Normalize
 import Ucfg.Model.Reify
+import Ucfg.Lemmas.Canonical
+import Ucfg.Props.C16
 /-
   C05 — every input shape normalizes to the same canonical tree.
 -/
@@ -74,5 +76,67 @@ theorem reify_prim (p : Prim) : reifyP (.prim p) = .ok p.toData := by
 
 /-! non-vacuity -/
 example : (Val.prim (.int 1)).isNilPrim = false := rfl
+
+/-! ### the lift: NewFrom then Unpack into interface{} returns the data
+
+`expect` (Lemmas/Canonical.lean) is the generic view written on the Go data alone.  For every plain input map - scalars,
+non-empty lists and non-empty string-keyed maps nested to any depth, keys that are single path segments and all different,
+no variable expansion - creating a config from it and reifying it returns exactly that view: map entries sorted by key,
+positive integers unsigned, durations and regexps as their text. -/
+
+theorem newFrom_then_reify (o : Opts) (m : List (String × GoData)) (hv : o.varexp = false) (hft : o.fieldTree = none)
+    (hp : plainData o (.map m) = true) :
+    (newFrom o (.map m) >>= reifyP) = .ok (expect (.map m)) := by
+  have hp' := hp
+  simp only [plainData, Bool.and_eq_true, Bool.not_eq_true', List.isEmpty_eq_false_iff] at hp'
+  obtain ⟨d', hd', hn, hr, hs, hne⟩ := normM_expect o hv m [] [] [] false hp'.2 (by simp [reifyD]) rfl (by simp [dget])
+  have hdne : d' ≠ [] := hne hp'.1
+  have hmne : m ≠ [] := hp'.1
+  -- NewFrom: normalize, then merge into the empty config
+  have hnew : newFrom o (.map m) = .ok (mergeP o.handling Val.empty (.sub d' [] hd' false)) := by
+    unfold newFrom cfgMerge
+    cases m with
+    | nil => exact absurd rfl hmne
+    | cons e r =>
+      simp only [normalize]
+      have he : (Val.empty : Val) = .sub [] [] false false := rfl
+      rw [he, hn]
+      simp only [Outcome.bind_ok, mergeCfg, hft, C16.noTree_eq_global]
+  rw [hnew]
+  simp only [Outcome.bind_ok]
+  -- the merged tree: deep copies of the entries, in order
+  have hmerge : ∃ A' h1 h2, mergeP o.handling Val.empty (.sub d' [] hd' false) = .sub (cpyD d') A' h1 h2 ∧ A' = [] := by
+    unfold mergeP
+    simp only
+    unfold mergeValsP
+    have hD : d'.isEmpty = false := by
+      cases d' with
+      | nil => exact absurd rfl hdne
+      | cons e r => rfl
+    have hinner : (if o.handling = Handling.replace then ([] : Dict) else []) = [] := by split <;> rfl
+    simp only [Val.empty, toCfg?, hD, Bool.false_eq_true, if_false, hinner]
+    rw [mergeDictP_sorted o.handling d' [] hs (by intro e he; cases he)]
+    refine ⟨_, _, _, rfl, ?_⟩
+    cases o.handling <;> simp [arrPolicy, mergeArrP, cpyA]
+  obtain ⟨A', h1, h2, hm, hA⟩ := hmerge
+  rw [hm, hA]
+  -- its view is the view of the normalized tree
+  have hview : reifyP (.sub (cpyD d') [] h1 h2) = .ok (.map (expectM [] m)) := by
+    cases hc : cpyD d' with
+    | nil =>
+      cases d' with
+      | nil => exact absurd rfl hdne
+      | cons e r => obtain ⟨k, v⟩ := e; simp [cpyD] at hc
+    | cons e r =>
+      obtain ⟨k, v⟩ := e
+      unfold reifyP
+      simp only
+      rw [← hc, reifyD_cpy d', hr]
+      rfl
+  rw [hview]
+  simp [expect]
+
+/-! non-vacuity: a nested input in the universe of the theorem -/
+example : plainData {} (.map [("b", .list [.int 3, .str "x"]), ("a", .map [("k", .bool true)])]) = true := by decide
 
 end Ucfg.C05
